@@ -358,7 +358,9 @@ def build_case(w, prog, log, clock, scratch, sink_factory, hints=()):
         _, sid, acts, term = st
         clock.t += 1
         log.append(['stage', sid])
-        if upcall is not None:
+        # realisation hint ['late-upcall', sid]: setUp / tearDown do their own work first and upcall afterwards
+        late = upcall is not None and ['late-upcall', sid] in hints
+        if upcall is not None and not late:
             upcall()
         for idx, a in enumerate(acts):
             k = a[0]
@@ -377,6 +379,8 @@ def build_case(w, prog, log, clock, scratch, sink_factory, hints=()):
                 case.patch(scratch, 'a%d' % a[1], attr_value(a[2]))
             elif k == 'useFixture':
                 case.useFixture(mk_fixture(a[1], a[2], a[3], case))
+        if late:
+            upcall()
         if term == 'ret':
             return
         k = term[0]
@@ -444,7 +448,13 @@ def build_case(w, prog, log, clock, scratch, sink_factory, hints=()):
             T = deco(T)
         else:
             T.test = deco(T.test)
-    case = T('test')
+    # realisation hint ['runner', k]: the four equivalent ways of saying "run this test with testtools.RunTest"
+    runner = next((h[1] for h in hints if isinstance(h, list) and h[0] == 'runner'), 0)
+    if runner == 1:
+        T.test = tt.run_test_with(tt.RunTest)(T.test)
+    elif runner == 2:
+        T.run_tests_with = tt.RunTest
+    case = T('test', runTest=tt.RunTest) if runner == 3 else T('test')
     for (cls, rep) in reversed(handlers):
         o = rep[-1]
         meth = {'success': 'addSuccess', 'failure': 'addFailure', 'error': 'addError', 'skip': 'addSkip',
@@ -464,6 +474,41 @@ def build_case(w, prog, log, clock, scratch, sink_factory, hints=()):
 
 class Scratch:
     pass
+
+
+def make_scratch(kind, attrs0):
+    """the object whose attributes the test patches. Realisation hint ['scratch', k]: where the pre-test attributes live -
+    0 the instance's __dict__, 1 class attributes of the instance's class, 2 a module, 3 slots inherited from a base class (the
+    concrete class has a __dict__ too), 4 properties with getter and setter but no deleter"""
+    vals = {'a%d' % a: attr_value(v) for a, v in attrs0}
+    if kind == 1:
+        return type('ScratchCls', (), dict(vals))()
+    if kind == 2:
+        import types
+        m = types.ModuleType('verif_scratch_module')
+        for k, v in vals.items():
+            setattr(m, k, v)
+        return m
+    if kind == 3:
+        base = type('ScratchSlots', (), {'__slots__': tuple('a%d' % i for i in range(10))})
+        o = type('ScratchSlotsChild', (base,), {})()
+        for k, v in vals.items():
+            setattr(o, k, v)
+        return o
+    if kind == 4:
+        def prop(k):
+            return property(lambda self: self._store[k], lambda self, v: self._store.__setitem__(k, v))
+        o = type('ScratchProps', (), {k: prop(k) for k in vals})()
+        o._store = dict(vals)
+        return o
+    o = Scratch()
+    for k, v in vals.items():
+        setattr(o, k, v)
+    return o
+
+
+def read_scratch(o):
+    return [[i, attr_canon(getattr(o, 'a%d' % i))] for i in range(10) if hasattr(o, 'a%d' % i)]
 
 
 class AlwaysEq:
@@ -511,9 +556,7 @@ def run_program(inp):
     attrs0 = prog[8]
     log = []
     clock = Clock()
-    scratch = Scratch()
-    for a, v in attrs0:
-        setattr(scratch, 'a%d' % a, attr_value(v))
+    scratch = make_scratch(next((h[1] for h in hints if isinstance(h, list) and h[0] == 'scratch'), 0), attrs0)
     sink_box = []
 
     def sink_factory():
@@ -535,7 +578,7 @@ def run_program(inp):
             raised = w.canon_exc(e)
             if raised[0] == 'unknown-exception':
                 raised = ['unknown-exception', type(e).__name__ + ':' + re.sub(r'[\s()]+', '_', str(e))[:80]]
-        attrs = sorted([int(k[1:]), attr_canon(v)] for k, v in vars(scratch).items())
+        attrs = read_scratch(scratch)
         traces.append([list(log), some(raised), bool(getattr(case, 'force_failure', False)), len(case._cleanups), attrs])
     return traces
 
@@ -727,6 +770,13 @@ def gen_input(rng, focus='all'):
     for st in all_stages(prog):
         if isinstance(st[3], list) and st[3][0] == 'raise1' and st[3][1][0] in ('skip', 'failure') and rng.random() < 0.3:
             hints.append(['api', st[1]])
+    for st in (prog[3], prog[5]):
+        if st[2] and rng.random() < 0.25:
+            hints.append(['late-upcall', st[1]])
+    if rng.random() < 0.3:
+        hints.append(['runner', rng.randrange(1, 4)])
+    if any(a[0] == 'patch' for st in all_stages(prog) for a in st[2]) and rng.random() < 0.6:
+        hints.append(['scratch', rng.randrange(1, 5)])
     if prog[1] is not None:
         k = rng.randrange(8)
         if k:
@@ -768,7 +818,7 @@ def exc_kinds(prog):
 
 def features(inp, traces):
     prog, runs = inp[0], inp[1]
-    f = ['flavour=' + prog[-1], 'runs=%d' % runs] + (['hint:fixture-getDetails-raises'] if len(inp) > 2 and any(isinstance(h, int) for h in inp[2]) else []) + ['hint:skip-decorator-%d' % h[1] for h in (inp[2] if len(inp) > 2 else []) if isinstance(h, list) and h[0] == 'skip'] + ['hint:helper-raises' for h in (inp[2] if len(inp) > 2 else []) if isinstance(h, list) and h[0] == 'api'][:1]
+    f = ['flavour=' + prog[-1], 'runs=%d' % runs] + (['hint:fixture-getDetails-raises'] if len(inp) > 2 and any(isinstance(h, int) for h in inp[2]) else []) + ['hint:skip-decorator-%d' % h[1] for h in (inp[2] if len(inp) > 2 else []) if isinstance(h, list) and h[0] == 'skip'] + ['hint:%s' % h[0] for h in (inp[2] if len(inp) > 2 else []) if isinstance(h, list) and h[0] in ('late-upcall', 'runner')] + ['hint:scratch-%d' % h[1] for h in (inp[2] if len(inp) > 2 else []) if isinstance(h, list) and h[0] == 'scratch'] + ['hint:helper-raises' for h in (inp[2] if len(inp) > 2 else []) if isinstance(h, list) and h[0] == 'api'][:1]
     sts = list(all_stages(prog))
     faulty = [s for s in sts if s[3] != 'ret']
     f.append('stages=%s' % (len(sts) if len(sts) < 8 else '8+'))
